@@ -92,9 +92,11 @@ def monitor(cfg, events, trace, obs):
         if t in (L.EV_STOP, L.EV_SHUTDOWN) or any(o[0] in (L.OUT_RET, L.OUT_RAISED) for o in outs if t not in (L.EV_START, L.EV_COMMIT)):
             st["fresh"] = False
         if st["fresh"] and t == L.EV_FETCH_OK and outs[:1] != [(L.OUT_IGNORED,)] and st["fetch_off"] is not None and \
-                ev[1] == sorted(ev[1]) and any(x >= st["fetch_off"] for x in ev[1]) and st["startd"] is False:
+                ev[1] == sorted(ev[1]) and any(x >= st["fetch_off"] for x in ev[1]) and st["startd"] is False and not ev[2]:
             if not any(o[0] == L.OUT_CALLPROC for o in outs):
                 bad.append(("C13_restartable", i, "the (re)started consumer received messages %r at fetch offset %d and did not call the processor" % (ev[1], st["fetch_off"])))
+            st["fresh"] = False
+        if any(o[0] == L.OUT_CALLPROC for o in outs):
             st["fresh"] = False
         # ---- walk the outputs in order
         inside = 0          # API call the processor is making right now (0: none)
